@@ -33,6 +33,9 @@ MENU = [
     "N = #sum { V : v(V,X) }",
     "not t(X)",
     "h(Y)",
+    "not 1 <= #sum { 1,V : v(V,Y) }",
+    "u(Y) : v(Y,Z)",
+    "1 <= #sum { 1,Y : v(Y,E) }",
     "r(X/2,W)",
     "r(X+1,W)",
     "r(2*X,W)",
